@@ -666,8 +666,27 @@ class IndexFn(IdxND):
 
     # like a NumPy >= 2 array: has .device, no .cpu()
     def __eq__(self, other):
-        same = other is self
-        return types.SimpleNamespace(all=lambda: same)
+        """elementwise comparison of two index arrays; .all() is the Boolean  'same length and equal at every position'  (identity of the objects decides it at once)"""
+        if other is self:
+            return types.SimpleNamespace(all=lambda: True, any=lambda: True)
+        if not isinstance(other, IndexFn):
+            raise Unsupported("comparison of an index array with a non-index value")
+        f, g, ln = self.f, other.f, self.length
+
+        def all_():
+            from vcgen.proxy import SBool
+            q = z3.Int("q?eq")
+            b = z3.Bool(CTX.fresh("idx_all_eq"))
+            CTX.assume(b == z3.And(iterm(ln) == iterm(other.length), z3.ForAll([q], z3.Implies(z3.And(q >= 0, q < iterm(ln)), f(q) == g(q)), patterns=[f(q), g(q)])))
+            return SBool(b)
+
+        def any_():
+            from vcgen.proxy import SBool
+            q = z3.Int(CTX.fresh("q_any"))
+            b = z3.Bool(CTX.fresh("idx_any_eq"))
+            CTX.assume(b == z3.Exists([q], z3.And(q >= 0, q < iterm(ln), q < iterm(other.length), f(q) == g(q))))
+            return SBool(b)
+        return types.SimpleNamespace(all=all_, any=any_)
 
     __hash__ = object.__hash__
 
@@ -715,6 +734,16 @@ ifns.float32, ifns.float64, ifns.complex64, ifns.int32, ifns.int64 = np.float32,
 ifns.promote_types = np.promote_types
 ifns.ndarray = IdxND
 ifns.USED = set()
+
+
+def _ifns_sort(x, *a, **k):
+    """np.sort of an index array: some index array of the same length (its relation to x is not modelled: every use must hold for an arbitrary one)"""
+    if isinstance(x, IndexFn):
+        return IndexFn("sorted_idx", x.length, x.bound, x.dtype)
+    raise Unsupported("sort of a symbolic array")
+
+
+ifns.sort = _ifns_sort
 
 
 def _zeros(shape, dtype, device=None):
